@@ -311,6 +311,12 @@ func (w *Workspace) BuildDriver(drvName string, race bool) (bin string, out stri
 		if err = w.writeTemplate("adapter.go.txt", filepath.Join(w.Dir, "ad", "ad_"+n, "adapter.go"), data, nil); err != nil {
 			return
 		}
+		if gi.HasParser {
+			// observation aid added to the scratch copy only: prints the decoded tables
+			if err = w.writeTemplate("verif_dump.go.txt", filepath.Join(w.Dir, n, "parser", "verif_dump.go"), nil, nil); err != nil {
+				return
+			}
+		}
 		imports = append(imports, fmt.Sprintf("\t_ \"%s/ad/ad_%s\"\n", ModPath, n))
 	}
 	mainSrc := "package main\n\nimport (\n\t\"" + ModPath + "/h\"\n" + strings.Join(imports, "") + ")\n\nfunc main() { h.Main() }\n"
